@@ -110,8 +110,17 @@ def cosim(design, vectors, sequential, top_name=None, text=None, stop_on_x=True)
         out.status = 'invalid_text'
         out.detail = 'top module %s not in emitted text (modules: %s)' % (top, list(d.mods)[:5])
         return out
+    # unsized decimal literals that do not fit 32 bits: the standard only promises "at least 32 bits". Two interpreters run side by
+    # side, one sizing the literal to hold its value (what tools do) and one keeping 32 bits; only a simulator value that differs
+    # from both readings is a mismatch
+    import re
+    big = any(int(m) >= (1 << 31) for m in re.findall(r"(?<![\w'.])\d{10,}(?![\w'.])", text))
+    it2 = None
     try:
-        it = vlog.Interp(d, top)
+        it = vlog.Interp(d, top, big_literal='extend' if big else 'x')
+        if big:
+            it2 = vlog.Interp(d, top, big_literal='wrap32')
+            out.big_literals = True
     except vlog.Indeterminate as e:
         out.status = 'indeterminate'
         out.detail = str(e)
@@ -150,7 +159,7 @@ def cosim(design, vectors, sequential, top_name=None, text=None, stop_on_x=True)
             b = it.get(outmap[w.name])
             seen[w.name].add(a)
             out.compared += 1
-            if a != b:
+            if a != b and (it2 is None or a != it2.get(outmap[w.name])):
                 out.mismatch = dict(when=when, cycle=cyc, output=w.name, width=w.getWidth(), simulator=a, verilog=b, inputs=vec)
                 return False
         return True
@@ -180,10 +189,14 @@ def cosim(design, vectors, sequential, top_name=None, text=None, stop_on_x=True)
                 v = vec.get(w.name, 0)
                 w.put(v)
                 it.set_input(inmap[w.name], v)
+                if it2 is not None:
+                    it2.set_input(inmap[w.name], v)
             xb = it.x_events
             with muted():
                 sim.propagateAll()
             it.settle()
+            if it2 is not None:
+                it2.settle()
             if it.x_events != xb:
                 out.x_skipped += 1
                 if range_x():
@@ -200,6 +213,8 @@ def cosim(design, vectors, sequential, top_name=None, text=None, stop_on_x=True)
                 with muted():
                     sim.clk(1)
                 it.posedge()
+                if it2 is not None:
+                    it2.posedge()
                 if it.x_events != xb:
                     out.x_skipped += 1
                     if range_x():
